@@ -180,57 +180,57 @@ func exporterOracle(pr *world.Pair, cbs [2]*cbRec) string {
 			return e.Name + ": ConnectionState unavailable"
 		}
 		for _, where := range []string{"ConnectionState", "VerifyConnection callback"} {
-		for _, label := range exporterLabels {
-			for _, n := range exporterLens {
-				var got []byte
-				if where == "ConnectionState" {
-					var err error
-					got, err = st.ExportKeyingMaterial(label, nil, n)
-					if err != nil {
-						return fmt.Sprintf("%s: exporter error %v", e.Name, err)
+			for _, label := range exporterLabels {
+				for _, n := range exporterLens {
+					var got []byte
+					if where == "ConnectionState" {
+						var err error
+						got, err = st.ExportKeyingMaterial(label, nil, n)
+						if err != nil {
+							return fmt.Sprintf("%s: exporter error %v", e.Name, err)
+						}
+					} else {
+						// a refusal (error) inside the callback leaks nothing; a value must be the keyed one
+						if cbs[ei] == nil {
+							continue
+						}
+						v, has := cbs[ei].vals[fmt.Sprintf("%s/%d", label, n)]
+						if !has {
+							continue
+						}
+						got = v
 					}
-				} else {
-					// a refusal (error) inside the callback leaks nothing; a value must be the keyed one
-					if cbs[ei] == nil {
-						continue
+					h := sec.Suite.Hash
+					var want []byte
+					if sec.V13 {
+						want = refimpl.Exporter13(h, sec.Exporter, label, nil, n)
+					} else {
+						want = refimpl.Exporter12(h, sec.Master, sec.ClientRandom, sec.ServerRandom, label, nil, false, n)
 					}
-					v, has := cbs[ei].vals[fmt.Sprintf("%s/%d", label, n)]
-					if !has {
-						continue
+					// public-only derivations: same formulas with an empty / all-zero secret, both random orders
+					type pubDer struct {
+						how string
+						val []byte
 					}
-					got = v
-				}
-				h := sec.Suite.Hash
-				var want []byte
-				if sec.V13 {
-					want = refimpl.Exporter13(h, sec.Exporter, label, nil, n)
-				} else {
-					want = refimpl.Exporter12(h, sec.Master, sec.ClientRandom, sec.ServerRandom, label, nil, false, n)
-				}
-				// public-only derivations: same formulas with an empty / all-zero secret, both random orders
-				type pubDer struct {
-					how string
-					val []byte
-				}
-				public := []pubDer{
-					{"the TLS 1.2 PRF with an empty secret over label+client_random+server_random", refimpl.Exporter12(h, nil, sec.ClientRandom, sec.ServerRandom, label, nil, false, n)},
-					{"the TLS 1.2 PRF with an empty secret over label+server_random+client_random", refimpl.Exporter12(h, nil, sec.ServerRandom, sec.ClientRandom, label, nil, false, n)},
-					{"P_hash with an empty secret over label+client_random+server_random", refimpl.PHash(h, nil, append(append([]byte(label), sec.ClientRandom...), sec.ServerRandom...), n)},
-					{"P_hash with an empty secret over label+server_random+client_random", refimpl.PHash(h, nil, append(append([]byte(label), sec.ServerRandom...), sec.ClientRandom...), n)},
-					{"the TLS 1.2 exporter keyed by the master secret of an EMPTY pre-shared key (premaster 00 00 00 00, no extended master secret)", refimpl.Exporter12(h, refimpl.MasterSecret(h, refimpl.PSKPremaster(nil), sec.ClientRandom, sec.ServerRandom), sec.ClientRandom, sec.ServerRandom, label, nil, false, n)},
-					{"the TLS 1.3 exporter with an all-zero exporter secret", refimpl.Exporter13(h, make([]byte, h.Size()), label, nil, n)},
-					{"the TLS 1.3 exporter with an empty exporter secret", refimpl.Exporter13(h, nil, label, nil, n)},
-				}
-				for _, pub := range public {
-					if bytes.Equal(got, pub.val) {
-						return fmt.Sprintf("%s: keying material exported through %s for label %q equals %s: it is computable from the cleartext part of the handshake", e.Name, where, label, pub.how)
+					public := []pubDer{
+						{"the TLS 1.2 PRF with an empty secret over label+client_random+server_random", refimpl.Exporter12(h, nil, sec.ClientRandom, sec.ServerRandom, label, nil, false, n)},
+						{"the TLS 1.2 PRF with an empty secret over label+server_random+client_random", refimpl.Exporter12(h, nil, sec.ServerRandom, sec.ClientRandom, label, nil, false, n)},
+						{"P_hash with an empty secret over label+client_random+server_random", refimpl.PHash(h, nil, append(append([]byte(label), sec.ClientRandom...), sec.ServerRandom...), n)},
+						{"P_hash with an empty secret over label+server_random+client_random", refimpl.PHash(h, nil, append(append([]byte(label), sec.ServerRandom...), sec.ClientRandom...), n)},
+						{"the TLS 1.2 exporter keyed by the master secret of an EMPTY pre-shared key (premaster 00 00 00 00, no extended master secret)", refimpl.Exporter12(h, refimpl.MasterSecret(h, refimpl.PSKPremaster(nil), sec.ClientRandom, sec.ServerRandom), sec.ClientRandom, sec.ServerRandom, label, nil, false, n)},
+						{"the TLS 1.3 exporter with an all-zero exporter secret", refimpl.Exporter13(h, make([]byte, h.Size()), label, nil, n)},
+						{"the TLS 1.3 exporter with an empty exporter secret", refimpl.Exporter13(h, nil, label, nil, n)},
 					}
-				}
-				if !bytes.Equal(got, want) {
-					return fmt.Sprintf("%s: keying material exported through %s for label %q (%d bytes) differs from the reference exporter keyed by the session secret", e.Name, where, label, n)
+					for _, pub := range public {
+						if bytes.Equal(got, pub.val) {
+							return fmt.Sprintf("%s: keying material exported through %s for label %q equals %s: it is computable from the cleartext part of the handshake", e.Name, where, label, pub.how)
+						}
+					}
+					if !bytes.Equal(got, want) {
+						return fmt.Sprintf("%s: keying material exported through %s for label %q (%d bytes) differs from the reference exporter keyed by the session secret", e.Name, where, label, n)
+					}
 				}
 			}
-		}
 		}
 	}
 	return ""
@@ -281,6 +281,34 @@ func c07Run(t *testing.T, p *world.PKI, cc cfgCase, clientWrites bool, pos int, 
 			w.Push(x.Addr, y.Addr, plainApp)
 			w.Push(y.Addr, x.Addr, plainApp)
 			w.Settle()
+			// and unprotected records that claim the receiver's current read epoch, with bodies shorter than
+			// anything record protection produces (explicit nonce, tag, MAC) and longer ones, in the plain
+			// layout and, where the receiver owns a connection ID, in the tls12_cid layout (inner type 23)
+			for _, dir := range [][2]*world.Endpoint{{x, y}, {y, x}} {
+				from, to := dir[0], dir[1]
+				ep := from.Snapshot().LocalEpoch
+				cid := to.Snapshot().LocalCID
+				sq := uint64(0x710000 + pos*64)
+				for _, e := range []uint16{ep, ep + 1} {
+					if e == 0 {
+						continue
+					}
+					for _, k := range []int{1, 2, 7, 8, 9, 16, 17, len(injected)} {
+						body := injected[:k]
+						sq++
+						hdr := []byte{23, 0xfe, 0xfd, byte(e >> 8), byte(e), byte(sq >> 40), byte(sq >> 32), byte(sq >> 24), byte(sq >> 16), byte(sq >> 8), byte(sq), 0, byte(len(body))}
+						w.Push(from.Addr, to.Addr, append(hdr, body...))
+						if len(cid) > 0 && !cc.v.V13 {
+							sq++
+							inner := append(append([]byte(nil), body...), 23)
+							h2 := append([]byte{25, 0xfe, 0xfd, byte(e >> 8), byte(e), byte(sq >> 40), byte(sq >> 32), byte(sq >> 24), byte(sq >> 16), byte(sq >> 8), byte(sq)}, cid...)
+							h2 = append(h2, 0, byte(len(inner)))
+							w.Push(from.Addr, to.Addr, append(h2, inner...))
+						}
+						w.Settle()
+					}
+				}
+			}
 		}
 		// the application writes now; during the handshake the call queues behind it (a real mutex: loose mode)
 		w.NoSkew = true
@@ -392,8 +420,8 @@ func c07Run(t *testing.T, p *world.PKI, cc cfgCase, clientWrites bool, pos int, 
 		}
 		// (c) the injected unprotected application data is never delivered
 		for _, g := range got {
-			if bytes.Contains(g, injected[:16]) {
-				viol = append(viol, "application data that arrived in an unprotected (epoch 0) record was delivered by Read")
+			if bytes.Contains(g, injected[:16]) || (len(g) > 0 && len(g) <= len(injected) && bytes.Equal(g, injected[:len(g)])) {
+				viol = append(viol, fmt.Sprintf("application data that arrived in an unprotected record was delivered by Read (%d bytes: %q)", len(g), g))
 			}
 		}
 		// data written is delivered when both sides completed (non-vacuity of the encrypted path)
